@@ -69,7 +69,11 @@ Definition cmds : cmd_table := [
   (* IPGlob(s).glob = s2: [state after the assignment, exception or None] *)
   ("ipglob_set", fun args => match args with
       | [PStr s; PStr s2] =>
-          Some (of_outcome (fun o => let '(o', e) := set_glob to_cidrs_exec o s2 in PPair (of_glob o') (POpt PExn e))
+          Some (of_outcome (fun o => let '(o', e) := set_glob to_cidrs_exec o s2 in
+                                     PList [of_glob o'; POpt PExn e;
+                                            (* derived views read again after the assignment *)
+                                            of_outcome of_cidrs (to_cidrs_exec (g_start o') (g_end o'));
+                                            PInt (g_end o' - g_start o' + 1)])
                 (ipglob_new to_cidrs_exec s))
       | _ => None end);
   ("ipglob_setstate", fun args => match args with
